@@ -19,7 +19,7 @@ RULE = ('exhaustive units: every pair of method subsets of {GET,HEAD,POST,PUT,AN
         'Non-trivial = the dispatch needed a fallback, a 405 or a case conversion; distinct = distinct (table, verb, path).')
 PYOPT = {'quick': 1, 'thorough': 1}     # one unit of every kind is also served by an interpreter started with -O (assert statements compiled out)
 REQUIRED = ['units_run_under_python_-O', 'own_verb', 'head_to_get', 'to_any', 'head_to_any', 'status_405', 'status_404', 'allow_compared', 'lowercase_request_verb',
-            'lowercase_registration', 'rejected_duplicate', 'overwritten', 'removed_method', 'head_no_body', 'resolve_compared', 'empty_table_405', 'method_names_given_as_a_one_shot_iterator', 'paths_ending_in_a_truncated_utf8_sequence', 'respelled_rule', 'candidates_given_as_a_tuple', 'removed_names_given_as_a_tuple']
+            'lowercase_registration', 'rejected_duplicate', 'overwritten', 'removed_method', 'head_no_body', 'resolve_compared', 'empty_table_405', 'method_names_given_as_a_one_shot_iterator', 'paths_ending_in_a_truncated_utf8_sequence', 'respelled_rule', 'candidates_given_as_a_tuple', 'removed_names_given_as_a_tuple', 'whole_route_removed_then_possibly_registered_again']
 EXHAUSTIVE = {'quick': False, 'thorough': True,
               'quick_note': 'complete for one route: all 32 method subsets x 9 verbs x 4 paths',
               'thorough_note': 'complete for two routes: all 32x32 pairs of method subsets x 9 verbs x 4 paths'}
@@ -307,7 +307,7 @@ def seq_unit(ctx, unit):
             rule = rng.choice(OPS_RULES)
             if rule in UNCANON and rng.random() < 0.3:
                 rule = UNCANON[rule]
-            op = rng.choice(['add', 'add', 'add_list', 'add_lower', 'dup', 'overwrite', 'remove', 'remove_obj', 'remove_list', 'shortcut'])
+            op = rng.choice(['add', 'add', 'add_list', 'add_lower', 'dup', 'overwrite', 'remove', 'remove_obj', 'remove_list', 'shortcut', 'remove_route'])
             if op == 'add':
                 m = rng.choice(METHODS + EXT)
                 w.register(ctx, rule, m)
@@ -335,6 +335,20 @@ def seq_unit(ctx, unit):
                 m = rng.choice(METHODS + EXT[:3])
                 w.register(ctx, rule, m, overwrite=True)
                 hist.append((op, rule, m))
+            elif op == 'remove_route':
+                # the whole route goes; a later registration of the same rule starts from an empty table
+                crule = CANON.get(rule, rule)
+                if crule in w.tables:
+                    how = len(hist) % 3
+                    if how == 0:
+                        w.app.remove_route(rule)
+                    elif how == 1:
+                        w.app.remove_route(route_pattern=w.app.router[{rule}].pattern)
+                    else:
+                        w.app.router.remove(w.app.router[{rule}])
+                    del w.tables[crule]
+                    ctx.count('whole_route_removed_then_possibly_registered_again')
+                    hist.append((op, rule, how))
             elif op in ('remove', 'remove_obj', 'remove_list'):
                 t = w.tables.get(rule)
                 if t is not None:
